@@ -73,8 +73,8 @@ public:
         on_vectored_interrupt = std::move(vectored_interrupt);
     }
 
-    std::array<u16, 16> vector_low, vector_high;
-    std::array<u16, 16> vector_context_switch;
+    std::array<u16, 16> vector_low{}, vector_high{};
+    std::array<u16, 16> vector_context_switch{};
 
 #ifdef TEAKRA_VERIF
     friend struct ::TeakraVerifAccess;
